@@ -8,11 +8,12 @@ for d in sorted(glob.glob('/verif/seeded/*')):
     m=json.load(open(mp))
     name=os.path.basename(d)
     if name.startswith('revfix-'):
-        res=m.get('results',{})
-        caught=[p for p,r in res.items() if r.get('exit')==1]
-        ran=list(res.keys())
+        # newest run first: seeded_lanes/seeded_run write check_results, tools/revfix_test.py writes results
+        res=m.get('check_results') or {k+':quick':{'exit':r.get('exit'),'signatures':r.get('first_signatures',[])} for k,r in m.get('results',{}).items()}
+        caught=sorted({k.split(':')[0] for k,v in res.items() if v.get('exit')==1})
+        ran=sorted({k.split(':')[0] for k in res})
         what=m.get('subject','')[5:90]
-        sig=next((r['first_signatures'][0] for r in res.values() if r.get('first_signatures')),'')
+        sig=next((v['signatures'][0] for v in res.values() if v.get('signatures')),'')
     else:
         res=m.get('check_results',{})
         caught=sorted({k.split(':')[0] for k,v in res.items() if v.get('exit')==1})
